@@ -68,7 +68,11 @@ func autoMaskOne(l *mc.Local, c autoCase) {
 	}
 	best, bestScore, ownScore := -1, 0, 0
 	for m := 0; m < 8; m++ {
-		s := qr.Penalty(qr.Build(data, v, lv.ref, m))
+		cand := qr.Build(data, v, lv.ref, m)
+		if !penaltyCompare(l, cand, penCase{"penalty", v, fmt.Sprintf("mask %d symbol of %q level %s", m, c.Text, c.Level), -1}) {
+			return
+		}
+		s := qr.Penalty(cand)
 		if best < 0 || s < bestScore {
 			best, bestScore = m, s
 		}
